@@ -411,3 +411,32 @@ PROPS["C02"] = dict(
     assumptions=[A_SAN, A_GEN, "senone scores re-computed by the harness through acmod_score with compallsen equal those the search used",
                  "the grammar searched is read back from the loaded FSG (that loading preserves the language is C13/C05's subject)"],
 )
+
+PROPS["C09"] = dict(
+    title="No sequence of API calls corrupts memory, aborts, or leaks", level="exploration",
+    technique="API-history interpreter under ASan/UBSan/LSan (pooled list elements individually guarded by hook H2) with a protocol-state model predicting the "
+              "documented return value of out-of-order and degenerate calls, a usability probe after each history, and per-history leak checks",
+    level_text="exploration: each case creates a fresh decoder (decoder_init or decoder_create+decoder_reinit; en-us / fr-fr; cmn live/batch/none) and executes a "
+               "generated history of 5-160 calls over config_*, decoder_reinit/reinit_feat/retain/free, set_fsg / set_jsgf_string / set_jsgf_file / "
+               "set_align_text, add_word / lookup_word, start / process_int16 / process_float32 (chunked, no_search, full_utt) / end, hyp, prob, seg_iter "
+               "(walked, continued later, abandoned), lattice (node and link iterators, bestpath, posterior, hyp, seg_iter, retain), nbest (stepped, "
+               "hyp, seg, abandoned), alignment (all three levels, children, retained, iterators kept/abandoned), result_json 0/1/2, times, get/set_cmn, "
+               "standalone fsg_model / jsgf / endpointer / config objects, and fine-grained polling utterances (word-loop grammar with short words, every query "
+               "after each 5-20 ms of the bundled recording, so that partial results flip between words and nothing). 30% of the histories inject audio before start and after end, start twice, "
+               "end without start, queries without any grammar, and empty-string / NULL arguments; the model (no grammar / idle / started / ended) "
+               "predicts <0, <=0 or NULL for each. After 70% of the histories a conforming utterance on the bundled recording must give the usual "
+               "hypothesis; the rest free the decoder as it is (also mid-utterance). Retained lattices and alignments are released before or after "
+               "the decoder. LeakSanitizer runs after the last release of every history.",
+    level_note="iterators are only held across query calls, never across audio, grammar or utterance-boundary calls (the documentation ties their validity "
+               "to the current result); '<= 0 frames' is accepted for audio outside an utterance because the header says '< 0' while the long-standing "
+               "behaviour is 0 plus an error message; malformed text inputs belong to C10 and damaged files to C17",
+    rule="one case = one history on a fresh decoder; distinct = (case, number of calls).",
+    stages=[dict(harness="h_api", flavor="asan", quick=600, thorough=30000, leaks=True)],
+    floor=dict(min_evaluations=500, min_distinct=400, counters={"api_calls": 10000, "hostile_histories": 100, "conforming_histories": 250, "utterances_ended": 300,
+                                                              "out_of_order_audio_after_end": 15, "out_of_order_audio_before_start": 15, "out_of_order_start_twice": 10,
+                                                              "out_of_order_end_without_start": 15, "degenerate_argument_calls": 30, "iterators_abandoned_half_way": 200,
+                                                              "lattices_returned": 100, "alignments_returned": 100, "nbest_iterators_returned": 50, "usability_probes": 300,
+                                                              "decoders_freed_mid_utterance": 10, "words_added": 50, "standalone_objects_exercised": 100,
+                                                              "polling_utterances": 50, "partial_hypothesis_word_to_nothing_flips": 20}),
+    assumptions=[A_SAN, A_GEN, "LeakSanitizer's recoverable leak check finds unreachable blocks only; pointers left in dead stack slots can hide a leak"],
+)
